@@ -71,29 +71,32 @@ def main():
         st = inp["stress"]
         old = sys.getswitchinterval()
         sys.setswitchinterval(1e-6)
-        mism = []
+        stress = {"rounds": st["rounds"]}
         try:
-            solo = [base.run_op(prepared(ops, []), ops[i]) for i in st["threads"]]
-            for rnd in range(st["rounds"]):
-                inst = prepared(ops, [])
-                res = [None] * len(st["threads"])
-                bar = threading.Barrier(len(st["threads"]))
+            for mode, warm in (("cold", []), ("warm", st.get("warm", []))):
+                mism = []
+                solo = [base.run_op(prepared(ops, warm), ops[i]) for i in st["threads"]]
+                for rnd in range(st["rounds"]):
+                    inst = prepared(ops, warm)
+                    res = [None] * len(st["threads"])
+                    bar = threading.Barrier(len(st["threads"]))
 
-                def work(k, i):
-                    bar.wait()
-                    res[k] = base.run_op(inst, ops[i])
+                    def work(k, i, inst=inst, res=res, bar=bar):
+                        bar.wait()
+                        res[k] = base.run_op(inst, ops[i])
 
-                ths = [threading.Thread(target=work, args=(k, i), daemon=True) for k, i in enumerate(st["threads"])]
-                for t in ths:
-                    t.start()
-                for t in ths:
-                    t.join(30)
-                for k, (a, b) in enumerate(zip(res, solo)):
-                    if a != b and len(mism) < 5:
-                        mism.append({"round": rnd, "thread": k, "op": st["threads"][k], "got": a, "solo": b})
+                    ths = [threading.Thread(target=work, args=(k, i), daemon=True) for k, i in enumerate(st["threads"])]
+                    for t in ths:
+                        t.start()
+                    for t in ths:
+                        t.join(30)
+                    for k, (a, b) in enumerate(zip(res, solo)):
+                        if a != b and len(mism) < 5:
+                            mism.append({"round": rnd, "thread": k, "op": st["threads"][k], "got": a, "solo": b})
+                stress[mode] = mism
         finally:
             sys.setswitchinterval(old)
-        stress = {"rounds": st["rounds"], "mismatches": mism}
+        stress["mismatches"] = stress["cold"]
     res = {"ambient": wd["ambient"], "order": wd["order"], "modules0": wd["modules0"], "runs": out, "stress": stress}
     if mark_error:
         res["mark_error"] = mark_error
